@@ -1,5 +1,5 @@
 #!/usr/bin/env python3
-"""Render seeded/RESULTS.json (written by tools/mutants.py) as the table of DESIGN.md section 12.6.
+"""Render seeded/RESULTS.json (written by tools/mutants.py) as the table of DESIGN.md section 12.7.
 
 usage: tools/render_results.py        rewrites the text between the markers
        <!-- RESULTS:BEGIN --> and <!-- RESULTS:END --> in DESIGN.md
@@ -49,7 +49,7 @@ def main():
     s = open(p).read()
     b, e = "<!-- RESULTS:BEGIN -->", "<!-- RESULTS:END -->"
     if b not in s:
-        s += f"\n### 12.6 All seeded changes and what the quick checks reported\n\n{b}\n{e}\n"
+        s += f"\n### 12.7 All seeded changes and what the quick checks reported\n\n{b}\n{e}\n"
     s = s[: s.index(b) + len(b)] + "\n" + text + s[s.index(e):]
     open(p, "w").write(s)
     print(f"caught {caught} missed {missed}")
